@@ -190,15 +190,15 @@ var c08Named = map[string]struct {
 	setup, expr string
 	mut         c08Mut
 }{
-	"named/cyclic-global":              {"CYC = [1]\nCYC.append(CYC)\n", "len(CYC)", c08Mut{"element of a self-containing list", "CYC = [1]", "CYC = [2]"}},
-	"named/int-to-equal-float":         {"ONE = 1\n", "ONE", c08Mut{"1 -> 1.0", "ONE = 1\n", "ONE = 1.0\n"}},
-	"named/global-rebound-to-builtin":  {"FN = len\n", "FN([1])", c08Mut{"global rebound from one builtin to another", "FN = len", "FN = str"}},
-	"named/recursive-helper":           {"def fact(n):\n    return 1 if n <= 1 else n * fact(n - 1)\n", "fact(5)", c08Mut{"literal in recursive helper", "n <= 1", "n <= 2"}},
+	"named/cyclic-global":             {"CYC = [1]\nCYC.append(CYC)\n", "len(CYC)", c08Mut{"element of a self-containing list", "CYC = [1]", "CYC = [2]"}},
+	"named/int-to-equal-float":        {"ONE = 1\n", "ONE", c08Mut{"1 -> 1.0", "ONE = 1\n", "ONE = 1.0\n"}},
+	"named/global-rebound-to-builtin": {"FN = len\n", "FN([1])", c08Mut{"global rebound from one builtin to another", "FN = len", "FN = str"}},
+	"named/recursive-helper":          {"def fact(n):\n    return 1 if n <= 1 else n * fact(n - 1)\n", "fact(5)", c08Mut{"literal in recursive helper", "n <= 1", "n <= 2"}},
 	// The inner function refers to itself through a cell. The interpreter dawn depends on (not part of
 	// pgavlin/dawn's tree) overflows the stack while freezing the module's globals, i.e. the module
 	// does not load; C08 quantifies over functions that load, so this is counted, not reported.
 	"named/nested-recursive-closure": {"def mk_count():\n    def count(n):\n        return 0 if n == 0 else 1 + count(n - 1)\n    return count\ncounter = mk_count()\n", "counter(4)", c08Mut{"literal in nested recursive closure", "1 + count", "2 + count"}},
-	"named/bool-to-equal-int-is-not":   {"FLAGV = True\n", "FLAGV", c08Mut{"True -> 1", "FLAGV = True", "FLAGV = 1"}},
+	"named/bool-to-equal-int-is-not": {"FLAGV = True\n", "FLAGV", c08Mut{"True -> 1", "FLAGV = True", "FLAGV = 1"}},
 }
 
 func c08Case(c *core.Ctx, id string) {
